@@ -47,6 +47,12 @@ pub struct RingOpts {
     pub extra_rotations: u64,
     /// With applications: cap TTR at this many slot times (0 = no cap) to keep runs short.
     pub ttr_cap_slots: u64,
+    /// Construct an unsynchronised cold start whose claim time-outs expire together (C06).
+    pub claim_race: bool,
+    /// Local clocks start at or after 0 (C13, see DESIGN 6 C13).
+    pub nonneg_clock: bool,
+    /// Applications on (almost) every station, several per station.
+    pub many_apps: bool,
 }
 
 pub fn pick_baud(r: &mut Rng) -> u64 {
@@ -201,8 +207,9 @@ pub fn ring_world(r: &mut Rng, tier: Tier, o: &RingOpts) -> (WorldCfg, OracleCfg
     // buggify sites that cost reaction time
     let mut extra_us = 0u64;
     let rx_chunk_us = if o.buggify && r.chance(1, 4) {
-        let c = r.range(1, (tslot_us / 8).max(1));
-        extra_us += c;
+        // counted twice: the receiver sees the telegram late and the sender sees the answer late
+        let c = r.range(1, (tslot_us / 10).max(1));
+        extra_us += 2 * c;
         c
     } else {
         0
@@ -226,7 +233,7 @@ pub fn ring_world(r: &mut Rng, tier: Tier, o: &RingOpts) -> (WorldCfg, OracleCfg
     let mut slaves = Vec::new();
     let mut resp_addrs = Vec::new();
     if o.responders {
-        for _ in 0..r.below(3) {
+        for _ in 0..(r.below(3) + u64::from(o.many_apps)) {
             let a = r.below(126) as u8;
             if !addrs.contains(&a) && !resp_addrs.contains(&a) {
                 resp_addrs.push(a);
@@ -256,6 +263,16 @@ pub fn ring_world(r: &mut Rng, tier: Tier, o: &RingOpts) -> (WorldCfg, OracleCfg
             *jt = t;
             quiet_from = quiet_from.max(t);
         }
+    }
+    if o.claim_race && cold && r.chance(1, 2) {
+        // Online instants chosen so that the address-staggered time-outs expire together
+        // (random instants almost never collide, DESIGN 6 C06).
+        let t_all = (8 + 2 * a_max) * tslot_us;
+        for (i, a) in addrs.iter().enumerate() {
+            let to = (6 + 2 * u64::from(*a)) * tslot_us;
+            join_times[i] = t_all - to + r.range(0, p_cap.max(1) * 2);
+        }
+        quiet_from = t_all;
     }
     // graceful leaves before the quiet point
     let mut leave_times: Vec<Option<u64>> = vec![None; n];
@@ -290,7 +307,7 @@ pub fn ring_world(r: &mut Rng, tier: Tier, o: &RingOpts) -> (WorldCfg, OracleCfg
         }
         let mut apps = Vec::new();
         if o.apps {
-            let na = r.weighted(&[3, 3, 2, 1]);
+            let na = if o.many_apps { r.weighted(&[1, 4, 3, 2]) } else { r.weighted(&[3, 3, 2, 1]) };
             for _ in 0..na {
                 if r.chance(1, 5) {
                     apps.push(AppCfg::LiveList);
@@ -315,7 +332,7 @@ pub fn ring_world(r: &mut Rng, tier: Tier, o: &RingOpts) -> (WorldCfg, OracleCfg
             watchdog_ms: None,
             p_min_us: p_min,
             p_max_us: p_max,
-            clock_off_us: if r.chance(1, 2) { 0 } else { r.range_i(-1_000_000, 1_000_000_000) },
+            clock_off_us: if r.chance(1, 2) { 0 } else { r.range_i(if o.nonneg_clock { 0 } else { -1_000_000 }, 1_000_000_000) },
             skew_ppm: if o.skew && r.chance(1, 4) { r.range_i(-200, 200) as i32 } else { 0 },
             plan,
             apps,
@@ -601,6 +618,7 @@ pub fn dp_world(r: &mut Rng, tier: Tier, o: &DpOpts) -> (WorldCfg, OracleCfg, Ve
         let level = *r.pick(&[10u32, 30, 60, 100, 200]);
         faults.push(Fault {
             trig: Trigger::At(t1),
+            delay_us: 0,
             kind: FaultKind::Storm {
                 until_us: t2,
                 drop_pm: r.range(0, u64::from(level)) as u32,
@@ -621,7 +639,7 @@ pub fn dp_world(r: &mut Rng, tier: Tier, o: &DpOpts) -> (WorldCfg, OracleCfg, Ve
                 0 => {
                     // power cycle
                     let back = t + r.range(1, 2 * (u64::from(retry) + 2)) * cycle_us / (u64::from(retry) + 1);
-                    faults.push(Fault { trig: Trigger::At(back.min(t2)), kind: FaultKind::SlavePower { slave: sl, on: true } });
+                    faults.push(Fault { trig: Trigger::At(back.min(t2)), kind: FaultKind::SlavePower { slave: sl, on: true }, delay_us: 0 });
                     FaultKind::SlavePower { slave: sl, on: false }
                 }
                 1 => FaultKind::SlaveFlag {
@@ -641,12 +659,12 @@ pub fn dp_world(r: &mut Rng, tier: Tier, o: &DpOpts) -> (WorldCfg, OracleCfg, Ve
                     FaultKind::SlaveByz { slave: sl, shape, count: r.range(1, 3) as u8 }
                 }
             };
-            faults.push(Fault { trig: Trigger::At(t), kind });
+            faults.push(Fault { trig: Trigger::At(t), kind, delay_us: 0 });
         }
         // some slaves stay off for good after the window (must be reported Offline)
         if o.quiet_phase && r.chance(1, 5) {
             let sl = r.below(slaves.len() as u64) as usize;
-            faults.push(Fault { trig: Trigger::At(t2 - 1), kind: FaultKind::SlavePower { slave: sl, on: false } });
+            faults.push(Fault { trig: Trigger::At(t2 - 1), kind: FaultKind::SlavePower { slave: sl, on: false }, delay_us: 0 });
         }
     }
     let user = UserCfg {
@@ -754,6 +772,85 @@ pub fn dp_world(r: &mut Rng, tier: Tier, o: &DpOpts) -> (WorldCfg, OracleCfg, Ve
     (world, oracle, faults)
 }
 
+
+/// Fault plan for the ring engine (C06): a window [t1, t2] with wire faults and station faults.
+pub fn ring_faults(r: &mut Rng, w: &mut WorldCfg, o: &mut OracleCfg, tier: Tier) -> Vec<Fault> {
+    let baud = w.baud;
+    let n = w.stations.len();
+    let slot_bits = w.stations[0].slot_bits;
+    let tslot_us = bit_us(baud, u64::from(slot_bits)).max(1);
+    let hsa = u64::from(w.stations[0].hsa);
+    let a_max = w.stations.iter().map(|s| u64::from(s.addr)).max().unwrap_or(0);
+    let gap_max = w.stations.iter().map(|s| u64::from(s.gap)).max().unwrap_or(1);
+    let t1 = o.quiet_from_us + r.range(10, 600) * tslot_us;
+    let t2 = t1 + r.range(20, if tier == Tier::Quick { 300 } else { 1500 }) * tslot_us;
+    let mut faults = Vec::new();
+    if r.chance(4, 5) {
+        let level = *r.pick(&[10u32, 30, 60, 100]);
+        faults.push(Fault {
+            trig: Trigger::At(t1),
+            delay_us: 0,
+            kind: FaultKind::Storm {
+                until_us: t2,
+                drop_pm: r.range(0, u64::from(level)) as u32,
+                flip_pm: r.range(0, u64::from(level)) as u32,
+                rxdrop_pm: r.range(0, u64::from(level)) as u32,
+                trunc_pm: r.range(0, u64::from(level) / 2) as u32,
+                dup_pm: 0,
+                seed: r.next_u64(),
+            },
+        });
+    }
+    let nf = r.range(0, 6);
+    for _ in 0..nf {
+        let st = r.below(n as u64) as usize;
+        let addr = w.stations[st].addr;
+        let t = r.range(t1, t2 - 1);
+        // triggers biased to token telegrams so that faults land on in-flight state
+        let trig = match r.below(4) {
+            0 => Trigger::NthTx { n: r.range(0, 3000) as u32, class: TxClass::TokenTo(addr) },
+            1 => Trigger::NthTx { n: r.range(0, 6000) as u32, class: TxClass::Token },
+            _ => Trigger::At(t),
+        };
+        let delay_us = if r.chance(1, 2) { 0 } else { r.range(0, 3 * tslot_us) };
+        let kind = match r.below(10) {
+            0 | 1 => FaultKind::Crash { station: st, restart_after_us: None },
+            2 | 3 => FaultKind::Crash { station: st, restart_after_us: Some(r.range(0, 40 * tslot_us)) },
+            4 | 5 => FaultKind::Stall { station: st, us: r.range(1, 40) * tslot_us },
+            6 => {
+                faults.push(Fault { trig: Trigger::At(t + r.range(1, 200) * tslot_us), kind: FaultKind::GoOnline { station: st }, delay_us: 0 });
+                FaultKind::GoOffline { station: st }
+            }
+            7 => FaultKind::ClockJump { station: st, delta_us: r.range(1, 100 * tslot_us) as i64 },
+            8 => {
+                let nb = r.range(1, 12) as usize;
+                FaultKind::Noise { bytes: r.bytes(nb) }
+            }
+            _ => {
+                let nb = r.range(1, 6) as usize;
+                FaultKind::Collide { after_chars: r.below(3) as u16, bytes: r.bytes(nb) }
+            }
+        };
+        let trig = if matches!(kind, FaultKind::Collide { .. }) { Trigger::NthTx { n: r.range(0, 4000) as u32, class: TxClass::Any } } else { trig };
+        faults.push(Fault { trig, kind, delay_us });
+    }
+    if r.chance(1, 8) {
+        let st = r.below(n as u64) as usize;
+        let nb = r.range(1, 8) as usize;
+        w.stations[st].stale_rx = r.bytes(nb);
+    }
+    // everything (incl. restarts and stalls) is over some time after t2
+    let quiet = t2 + 45 * tslot_us + 205 * tslot_us;
+    let bound_slots = conv_bound_slots(n as u64, n as u64, hsa, gap_max, a_max) + (6 + 2 * a_max) + 9 * n as u64;
+    o.quiet_from_us = quiet;
+    w.fault_deadline_us = t2;
+    // the rotation term of the bound already accounts for traffic in ring_world(); rebuild it
+    let base = o.bound_us;
+    o.bound_us = base.max(bound_slots * tslot_us) + ((6 + 2 * a_max) + 9 * n as u64) * tslot_us;
+    w.end_us = quiet + o.bound_us + o.stable_us + 10 * tslot_us;
+    faults
+}
+
 pub fn generate(check: &str, tier: Tier, base_seed: u64, k: u64) -> Scenario {
     let seed = derive(base_seed, check, k);
     let mut r = Rng::derived(seed, "gen", 0);
@@ -772,6 +869,9 @@ pub fn generate(check: &str, tier: Tier, base_seed: u64, k: u64) -> Scenario {
                 skew: true,
                 extra_rotations: 30,
                 ttr_cap_slots: 60,
+                claim_race: false,
+                nonneg_clock: false,
+                many_apps: false,
             };
             let (w, o) = ring_world(&mut r, tier, &o);
             (w, o, Vec::<Fault>::new())
@@ -790,9 +890,68 @@ pub fn generate(check: &str, tier: Tier, base_seed: u64, k: u64) -> Scenario {
                 skew: true,
                 extra_rotations: 40,
                 ttr_cap_slots: 30,
+                claim_race: false,
+                nonneg_clock: false,
+                many_apps: false,
             };
             let (w, o) = ring_world(&mut r, tier, &o);
             (w, o, Vec::<Fault>::new())
+        }
+        "C06" => {
+            let o = RingOpts {
+                n_min: 2,
+                n_max: 5,
+                max_hsa: if tier == Tier::Quick { 32 } else { 126 },
+                max_gap: if tier == Tier::Quick { 5 } else { 40 },
+                apps: r.chance(1, 4),
+                responders: false,
+                staged_joins: true,
+                leaves: false,
+                buggify: r.chance(1, 2),
+                skew: false,
+                extra_rotations: 40,
+                ttr_cap_slots: 30,
+                claim_race: true,
+                nonneg_clock: false,
+                many_apps: false,
+            };
+            let (mut w, mut o) = ring_world(&mut r, tier, &o);
+            let f = ring_faults(&mut r, &mut w, &mut o, tier);
+            (w, o, f)
+        }
+        "C13" | "C15" => {
+            let o = RingOpts {
+                n_min: if check == "C15" { 1 } else { 2 },
+                n_max: if check == "C15" { 3 } else { 5 },
+                max_hsa: if tier == Tier::Quick { 24 } else { 126 },
+                max_gap: if tier == Tier::Quick { 5 } else { 30 },
+                apps: true,
+                responders: true,
+                staged_joins: check == "C13",
+                leaves: false,
+                buggify: check == "C15",
+                skew: true,
+                extra_rotations: 60,
+                ttr_cap_slots: if tier == Tier::Quick { 60 } else { 400 },
+                claim_race: false,
+                nonneg_clock: true,
+                many_apps: true,
+            };
+            let (w, o) = ring_world(&mut r, tier, &o);
+            // peers that answer late, with foreign addresses, with requests, tokens or not at all
+            let mut f = Vec::new();
+            if check == "C15" && !w.slaves.is_empty() {
+                for _ in 0..r.range(0, 12) {
+                    let sl = r.below(w.slaves.len() as u64) as usize;
+                    let master = w.stations[0].addr;
+                    f.push(Fault {
+                        trig: Trigger::NthTx { n: r.range(0, 400) as u32, class: TxClass::Request },
+                        kind: FaultKind::SlaveByz { slave: sl, shape: byz_shape(&mut r, master), count: r.range(1, 2) as u8 },
+                        delay_us: 0,
+                    });
+                }
+            }
+            (w, o, f)
         }
         "C03" | "C04" | "C07" | "C08" | "C14" => {
             let o = DpOpts {
